@@ -18,6 +18,14 @@ structure Sess where
   um    : User := {}      -- user state on the model side
   us    : User := {}      -- user state on the spec side
   sparse : Bool := false  -- obs=sparse: used/free are printed by `observe` only
+  quiet : Bool := false   -- phys=quiet: the region bytes are printed as a checksum, the full dump on `observe`
+
+
+/-- FNV-1a 64 over the UTF-8 text of a list as the full mode prints it (`phys=quiet`) -/
+def fnvList (xs : List Nat) : String :=
+  let text := ",".intercalate (xs.map toString)
+  let h := text.toUTF8.foldl (fun (h : UInt64) b => (h ^^^ b.toUInt64) * 1099511628211) 14695981039346656037
+  s!"#{h.toNat}"
 
 def fmtPtr (p : Option Nat) : String := match p with | some a => s!" p={a}" | none => " p=NULL"
 
@@ -25,17 +33,28 @@ def obsM (r : Option StaticPool) : String :=
   match r with | none => "" | some r => s!" used={r.core.usedBytes} free={r.core.freeBytes}"
 def obsS (f : Option Spec.SPool) : String :=
   match f with | none => "" | some f => s!" used={f.used} free={f.free}"
-def phys (r : Option StaticPool) : String :=
+def phys (r : Option StaticPool) (quiet : Bool := false) : String :=
   match r with
   | none => "-"
-  | some r => s!"size={r.core.size} free={r.core.free} high={r.core.high} bytes={fmtList r.core.bytes}"
-def inv (r : Option StaticPool) : Bool := match r with | none => true | some r => decide r.Inv
+  | some r => s!"size={r.core.size} free={r.core.free} high={r.core.high} bytes={if quiet then fnvList r.core.bytes else fmtList r.core.bytes}"
+/-- `StaticPool.Inv` evaluated in one pass over the block list (the `Decidable` instance recomputes the
+total length of the tail at every block: quadratic, too slow with thousands of live blocks) -/
+def invFast (r : StaticPool) : Bool :=
+  -- fold from the oldest block: running total = expected offset of the next block
+  let chk := r.blocks.foldr (fun b (acc : Bool × Nat) => (acc.1 && b.1 == acc.2, acc.2 + b.2)) (true, 0)
+  decide (r.core.free ≤ r.core.size) && decide (r.core.high ≤ r.core.free) && r.core.bytes.length == r.core.size &&
+  chk.1 && r.core.free == chk.2 &&
+  (if r.undo then (match r.blocks with | b :: _ => b.1 == r.core.high && b.1 + b.2 == r.core.free | [] => false)
+   else r.core.free == r.core.high)
+def inv (r : Option StaticPool) : Bool :=
+  match r with | none => true | some r => if r.blocks.length ≤ 32 then decide r.Inv else invFast r
 
 def lineS' (full : Bool) (hd : String) (s : Sess) : String := s!"S {hd}{if full then obsS s.spec else ""}"
 def lineM' (full : Bool) (hd : String) (s : Sess) : String :=
   s!"M {hd}{if full then obsM s.model else ""} | {phys s.model} | {fmtMem s.mem} | {fmtFlags (inv s.model) s.mem}"
 def lineS (hd : String) (s : Sess) : String := lineS' (!s.sparse) hd s
-def lineM (hd : String) (s : Sess) : String := lineM' (!s.sparse) hd s
+def lineM (hd : String) (s : Sess) : String :=
+  s!"M {hd}{if !s.sparse then obsM s.model else ""} | {phys s.model s.quiet} | {fmtMem s.mem} | {fmtFlags (inv s.model) s.mem}"
 
 def freshByte : Nat := 238   -- 0xEE, what the harness fills the region with
 
@@ -53,7 +72,7 @@ def step (s : Sess) (c : Cmd) : Sess × String × String :=
     let size := c.nat "size" 16
     let bytes := List.replicate size freshByte
     let s' : Sess := { model := some (StaticPool.new size bytes), spec := some (Spec.SPool.init size bytes), mem := m,
-                       sparse := (c.str "obs").getD "full" == "sparse" }
+                       sparse := (c.str "obs").getD "full" == "sparse", quiet := (c.str "phys").getD "full" == "quiet" }
     (s', lineS (fmtStat .ok) s', lineM (fmtStat .ok) s')
   | _ =>
   match s.model, s.spec with
